@@ -420,3 +420,29 @@ package filesystem
 //@   safety
 //@   noinline zeroizeKeyRing
 //@   modifies bytes
+
+// ---- the ring signature binds the ring to its path (C07): both signing and verification use the context derived from the
+// path of the very ring being written / read (a ring file copied to another path does not verify), verification is done by
+// the notary over the whole stored blob, and only a verified blob of the right content type and version is decoded.
+//@ func (s *KeyStore) keyRingSignatureContext(path string) (c []byte)
+//@   props C07
+//@   noinline keyStoreContext
+//@   at call KeyStore.keyStoreContext : assert path-in-context: len(arg[0]) == 20 + len(path) && forall(i, 0, len(path), arg[0][20+i] == path[i]) && arg[0][0] == 'k' && arg[0][19] == ' '
+//@   ensures sameslice(c, ret(KeyStore.keyStoreContext)[0])
+
+//@ func (s *KeyStore) signKeyRing(ring *asn1.KeyRing, path string) (data []byte, sigs []asn1.Signature, err error)
+//@   props C07
+//@   noinline keyRingSignatureContext
+//@   at call KeyStore.keyRingSignatureContext : assert arg[0] == path
+//@   at call Notary.Sign : assert recv == s.notary && sameslice(arg[1], ret(KeyStore.keyRingSignatureContext)[0])
+//@   ensures signed-blob-returned: err == nil ==> sameslice(data, ret(Notary.Sign)[0]) && ret(Notary.Sign)[1] == nil
+//@   ensures nothing-on-error: err != nil ==> data == nil && sigs == nil
+
+//@ func (s *KeyStore) verifyKeyRing(data []byte, path string) (ring *asn1.KeyRing, sigs []asn1.Signature, err error)
+//@   props C07
+//@   noinline keyRingSignatureContext
+//@   at call KeyStore.keyRingSignatureContext : assert arg[0] == path
+//@   at call Notary.Verify : assert recv == s.notary && sameslice(arg[0], data) && sameslice(arg[1], ret(KeyStore.keyRingSignatureContext)[0])
+//@   at call asn1.UnmarshalKeyRing : assert only-verified-data-is-decoded: ret(Notary.Verify)[1] == nil && sameslice(arg[0], ret(Notary.Verify)[0].Payload.Data.FullBytes) && ret(Notary.Verify)[0].Payload.ContentType == asn1.TypeKeyRing && ret(Notary.Verify)[0].Payload.Version == asn1.KeyRingVersion2
+//@   ensures rejected-blob-gives-nothing: ret(Notary.Verify)[1] != nil ==> ring == nil && err == ret(Notary.Verify)[1]
+//@   ensures accepted-is-the-decoded-ring: err == nil ==> called(asn1.UnmarshalKeyRing) && ring == ret(asn1.UnmarshalKeyRing)[0]
